@@ -147,10 +147,9 @@ func c03Alphabet(c *vfCtx) []c03Op {
 
 func c03BFS(c *vfCtx) {
 	alpha := c03Alphabet(c)
+	// thorough widens the alphabet (4 tests x 4 values) at the same depth: depth 6 over it does not finish
+	// within the internal deadline (measured: 5.4e7 histories, 2.1e7 states, exhaustive:false)
 	depth := 5
-	if c.thorough() {
-		depth = 6
-	}
 	var as []string
 	for _, o := range alpha {
 		as = append(as, o.String())
